@@ -363,6 +363,26 @@ Proof.
 Qed.
 End PipelineRebuild.
 
+(* ---- `expand` for solid entries without compression and encryption is the library's inner iteration;
+   the hypothesis about it is a theorem (WfRewriteFacts.solid_inner_writable); for the other solid
+   entries the expansion (decrypt, decompress, parse) stays a parameter ------------------------------- *)
+Definition expand_plain_or (other : solid_entry -> res (list normal_entry)) (s : solid_entry) : res (list normal_entry) :=
+  if solid_plain s then
+    match solid_inner_entries s with
+    | (es, FinOk) => Ok es
+    | (_, FinErr k) => Err k
+    | (_, FinPanic) => Panic
+    end
+  else other s.
+
+Lemma expand_plain_or_writable other :
+  (forall s inner, writable_solid s -> solid_plain s = false -> other s = Ok inner -> Forall writable_normal inner) ->
+  forall s inner, writable_solid s -> expand_plain_or other s = Ok inner -> Forall writable_normal inner.
+Proof.
+  intros H s inner W. unfold expand_plain_or. destruct (solid_plain s) eqn:P; [|exact (H s inner W P)].
+  destruct (solid_inner_writable s W P) as (inner' & -> & WI). intros [= <-]. exact WI.
+Qed.
+
 (* the hypotheses of the section are satisfiable (tokens: the header options and the data stream, which
    the attribute replacements do not touch; the trivial expansion) and so are the premises of transform_wf *)
 Definition ex_hdr_tok (e : normal_entry) : bytes := [n2b (comp_to_n (f_comp (n_hdr e))); n2b (enc_to_n (f_enc (n_hdr e)))].
